@@ -450,6 +450,7 @@ class Explorer:
         self.assume_def = dict(assume_def or {})
         self.plugin = plugin
         self.pairs = set(pairs)         # designated (keyA, keyB) relation pairs
+        self.pair_keys = {k for p in self.pairs for k in p}
         self.cyclic = self.info.cyclic_phis()
         self.live = self.info.live_after_phis()
         self.rets = []                  # (state, ret inst, AV of returned value)
@@ -834,6 +835,31 @@ class Explorer:
             out.add({"eq": r == "=", "ne": r != "=", "slt": r == "<", "sle": r in "<=", "sgt": r == ">", "sge": r in ">="}[pred])
         return out
 
+    def rel_of(self, env, oa, ob):
+        """signed relation subset of '<=>' between two operands: from a recorded fact, identity, or their ranges; None if unknown"""
+        oa, ob = list(oa), list(ob)
+        if oa[0] in ("i", "a") and ob[0] in ("i", "a"):
+            ka, kb = (oa[0], oa[1]), (ob[0], ob[1])
+            if ka == kb:
+                return frozenset("=")
+            r = env.get(("rel", ka, kb))
+            if r is not None:
+                return r
+            r = env.get(("rel", kb, ka))
+            if r is not None:
+                return frozenset({"<": ">", ">": "<", "=": "="}[c] for c in r)
+        a, b = self.eval(oa, env), self.eval(ob, env)
+        if a is None or b is None or a[0] != "int" or b[0] != "int":
+            return None
+        out = set()
+        if True in icmp_eval("slt", a, b):
+            out.add("<")
+        if True in icmp_eval("eq", a, b):
+            out.add("=")
+        if True in icmp_eval("sgt", a, b):
+            out.add(">")
+        return frozenset(out) if len(out) < 3 else None
+
     # ---------------- refinement
     def refine(self, o, truth, env):
         """returns list of environments (disjunction) in which value o (i1) has the given truth; [] if impossible"""
@@ -881,6 +907,13 @@ class Explorer:
             if p is not None:
                 ka, kb, swapped = p
                 pp = _PRED_SWAP[pred] if swapped else pred
+                if pp in ("ult", "ule", "ugt", "uge"):
+                    # an unsigned bound that is known non-negative implies the signed relation:  a <u b, b >= 0  =>  0 <= a <s b
+                    hi_key = kb if pp in ("ult", "ule") else ka
+                    hv = self.eval(list(hi_key), env)
+                    w_ = int_width(self._optype(list(hi_key)))
+                    if hv is not None and hv[0] == "int" and w_ and not is_empty(hv) and umax(hv) < (1 << (w_ - 1)):
+                        pp = "s" + pp[1:]
                 allowed = {"eq": "=", "ne": "<>", "slt": "<", "sle": "<=", "sgt": ">", "sge": ">="}.get(pp)
                 if allowed is not None:
                     old = env.get(("rel", ka, kb), frozenset("<=>"))
@@ -1029,13 +1062,30 @@ class Explorer:
                         if pb == pred:
                             newv[k] = self.eval(o, env)
                             break
+                old_env = env
                 env = dict(env)
-                # relations: a phi copy of a designated value keeps no relation
                 for k, v in newv.items():
                     if v is None or is_full(v):
                         env.pop(k, None)
                     else:
                         env[k] = v
+                # relations of designated pairs follow the copy made by the phi
+                if self.pairs:
+                    phimap = {}
+                    for p in b.phis():
+                        for o, pb in zip(p.ops, p.d["inc"]):
+                            if pb == pred:
+                                phimap[("i", p.id)] = o
+                                break
+                    for (ka, kb) in self.pairs:
+                        if ka in phimap or kb in phimap:
+                            oa = phimap.get(ka, list(ka))
+                            ob = phimap.get(kb, list(kb))
+                            r = self.rel_of(old_env, oa, ob)
+                            if r is None:
+                                env.pop(("rel", ka, kb), None)
+                            else:
+                                env[("rel", ka, kb)] = r
             # prune by liveness (plugin keys are kept)
             live = self.live[bidx]
             env = {k: v for k, v in env.items() if (k[0] not in ("i", "a")) or k in live or (k[0] == "i" and k[1] in self.assume_def)}
@@ -1073,6 +1123,9 @@ class Explorer:
                     elif k in s.env and i is not b.term:
                         # re-executing the definition invalidates an old refinement
                         del s.env[k]
+                    if self.pairs and k in self.pair_keys:
+                        for rk in [x for x in s.env if x[0] == "rel" and (x[1] == k or x[2] == k)]:
+                            del s.env[rk]
                     if self.plugin is not None and i is not b.term:
                         r = self.plugin.on_inst(self, s, i)
                         if r is not None:
